@@ -653,6 +653,16 @@ bool ObjectFile::writeAttributes(File &objectFile)
 		}
 	}
 
+	// The data is buffered; a failing write (e.g. disk full) may only show up here
+	if (!objectFile.flush())
+	{
+		DEBUG_MSG("Failed to flush object %s", path.c_str());
+
+		objectFile.unlock();
+
+		return false;
+	}
+
 	objectFile.unlock();
 
 	return true;
